@@ -103,8 +103,31 @@ def unification_sites(repo, files):
     return out
 
 
+def _site_entries(sites):
+    """a matcher created inside a private helper that the rule functions call (a schema-driven `_apply(schema, x, y)`) is
+    judged where the helper is used: -> [(mod, entry function, site node)] with the helper's callers as entries"""
+    from .core import closure_functions_of
+    out = []
+    for mod, fn, node in sites:
+        if fn is None:
+            out.append((mod, None, node))
+            continue
+        top = fn
+        while isinstance(getattr(top, '_parent', None), ast.FunctionDef):
+            top = top._parent
+        private = isinstance(getattr(top, '_parent', None), ast.Module) and top.name.startswith('_')
+        callers = [f for f in mod.tree.body if isinstance(f, ast.FunctionDef) and f is not top and top in closure_functions_of(f)] if private else []
+        callers = [f for f in callers if not any(f in closure_functions_of(g) for g in callers if g is not f)]
+        if callers:
+            for f in callers:
+                out.append((mod, f, node))
+        else:
+            out.append((mod, fn, node))
+    return out
+
+
 def r_client_typestate(repo, rep, files, R='R6.2'):
-    sites = unification_sites(repo, files)
+    sites = _site_entries(unification_sites(repo, files))
     n = 0
     for mod, fn, node in sites:
         w = '%s:%s %s' % (mod.rel, node.lineno, qualname_of(fn) if fn is not None else '<module>')
@@ -150,6 +173,10 @@ def r_client_typestate(repo, rep, files, R='R6.2'):
                                 ok_keys = False
                                 why.append('binding key %s is not a meta variable of the patterns %s' % (show(s_[2]), sorted(allowed)))
                         if s_[0] == 'call' and s_[1] != uni and s_ != uni and uni in s_[2] + tuple(v for _, v in s_[3]):
+                            callee = s_[1]
+                            helper = callee[0] == 'name' and callee[1].startswith('_') and isinstance(mod.get(callee[1], required=False), ast.FunctionDef)
+                            if helper:
+                                continue        # a private helper of the module: the walker has inlined it, its reads are judged here
                             ok_escape = False
                             why.append('matcher passed to %s' % show(s_[1]))
                 if e[0] == 'branch':
@@ -492,7 +519,20 @@ def r_shape_safety(repo, rep, mod, fn, R, typed_params=None):
                 need = 'functor' if attr in FUNCTOR_ATTRS else 'atom'
                 guards = flatten_guards(list(trace) + list(guards_of(st, e)))
                 n += 1
-                ok = _shape_known(v, need, guards, uni_facts)
+                facts = dict(uni_facts)
+                for g, pol in guards:
+                    # a successful match established inside a conditional expression / an inlined helper
+                    if g[0] == 'unop' and g[1] == 'not':
+                        g, pol = g[2], not pol
+                    if pol and g[0] == 'call' and g[1][0] == 'call' and g[1][1] == N('Unification') and len(g[1][2]) == 2 \
+                            and all(a[0] == 'const' for a in g[1][2]) and len(g[2]) == 2:
+                        try:
+                            for a, pat in zip(g[2], g[1][2]):
+                                if a[0] == 'name':
+                                    facts[a[1]] = sc.parse_pattern(pat[1])
+                        except AnalysisError:
+                            pass
+                ok = _shape_known(v, need, guards, facts)
                 k = (show(v), attr)
                 if not ok:
                     bad[k] = node
